@@ -40,6 +40,12 @@ impl Prop for C19 {
       let cell = format!("mutates={};stratum=single", p.mutates);
       out.push(Case { id: format!("{};n={};{}", cell, i, p.constructs()), cell, input: json!({"src": p.text(), "mutates": p.mutates}) });
     }
+    // the static corpus harvested from the repository's tests: every stdlib function and statement form the tests use; whether a
+    // program assigns is read off its syntax tree at run time (mutates = null)
+    for (name, src) in crate::corpus::test_programs() {
+      let fam = name.split('_').take(3).collect::<Vec<_>>().join("_");
+      out.push(Case { id: format!("corpus;name={}", name), cell: format!("stratum=corpus;family={}", fam), input: json!({"src": src, "mutates": J::Null}) });
+    }
     let n = if tier == Tier::Quick { 400 } else { 8000 };
     for i in 0..n {
       let mut rng = Rng::keyed(seed, &format!("c19comp{}", i));
@@ -54,7 +60,10 @@ impl Prop for C19 {
 
   fn run(&self, case: &Case, _flavour: &str) -> Outcome {
     let src = case.input["src"].as_str().unwrap();
-    let mutates = case.input["mutates"].as_bool().unwrap();
+    let mutates = match case.input["mutates"].as_bool() {
+      Some(b) => b,
+      None => match guarded(|| mech_syntax::parser::parse(src)) { Ok(Ok(t)) => { let j = serde_json::to_string(&t).unwrap_or_default(); j.contains("\"VariableAssign\"") || j.contains("\"OpAssign\"") || j.contains("\"FsmDeclare\"") && false } _ => return Outcome::trivial().tag("not-parsable") },
+    };
     let mut snaps: Vec<Snapshot> = Vec::new();
     for (i, n) in STEPS.iter().enumerate() {
       let a = match run_steps(src, *n, false) { Ok(x) => x, Err(e) => { return if e.starts_with("interpret") { Outcome::trivial().tag("not-interpretable") } else { Outcome::violated("step-panic", format!("program\n{}\nstep(0,{}): {}", src, n, e)) } } };
